@@ -708,12 +708,22 @@ def execute(desc):
     elif kind == 'iadd':
       which = op['which']
       cur = t.x if which == 'x' else t.y
-      if (t.alias_x if which == 'x' else t.alias_y) and cur is not None:
-        # the caller scribbled on the array it had passed in: an object that
-        # aliases it now holds (and adds to) the scribbled series
+      if cur is not None:
         held = obj.x if which == 'x' else obj.y
-        if held is not None and not same_series(held, cur):
+        if held is not None and (
+            t.alias_x if which == 'x' else t.alias_y) and (
+                not same_series(held, cur)):
+          # the caller scribbled on the array it had passed in: an object that
+          # aliases it now holds (and adds to) the scribbled series
           probe('object_aliases_caller_array')
+          cur = np.array(held)
+        elif held is not None and np.asarray(held).dtype != cur.dtype and (
+            np.asarray(held).shape == cur.shape):
+          # an implementation that stores its series in ONE dtype (float64
+          # copies of an integer series, say) adds to the converted values:
+          # convert(series) + d, not convert(series + d) -- they differ in
+          # the last bit for integers beyond 2**53
+          probe('object_stores_converted_series')
           cur = np.array(held)
       d = op['d']
       if cur is not None and cur.dtype.kind in 'iub':
